@@ -291,6 +291,22 @@ def check(case):
         if tio.getvalue() != text or bio.getvalue() != text.encode("utf-8"):
             raise Violation("dump-fd-differs", "dump() gives %s, text fd %s, binary fd %s"
                             % (short(text), short(tio.getvalue()), short(bio.getvalue())))
+        # What dump() writes is a function of the paragraph's current fields, whatever was dumped
+        # before: take the first field out, dump and re-read, put it back in place, dump again.
+        if len(p["fields"]) >= 2:
+            n0 = p["fields"][0][0]
+            v0 = d[n0]
+            del d[n0]
+            got = [_items(q) for q in Deb822.iter_paragraphs(d.dump())]
+            want = [[[n, G.normalised(v)] for n, v in p["fields"][1:]]]
+            if got != want:
+                raise Violation("dump-after-edit", "after del d[%r] the dump %s reads %s, expected %s"
+                                % (n0, short(d.dump()), short(got), short(want)))
+            d[n0] = v0
+            d.order_first(n0)
+            if d.dump() != text:
+                raise Violation("dump-after-edit", "field %r removed, re-added and moved first: dump %s, "
+                                "before %s" % (n0, short(d.dump()), short(text)))
         ls = text.split("\n")
         if ls and ls[-1] == "":
             ls.pop()
